@@ -128,6 +128,8 @@ class CallMixin:
                 pass
             res = [(V('ext', 'builtins.' + name, ev.seq), st)]
             return self.after_call(ev, res)
+        if name == 'bool' and len(args) == 1 and not args[0].is_const:
+            return [(args[0], st)]     # only its truthiness is ever used
         if name == 'str' and args and args[0].is_const:
             return [(C(str(args[0].val)), st)]
         if name == 'int' and args and args[0].is_const:
@@ -135,6 +137,10 @@ class CallMixin:
                 return [(C(int(args[0].val)), st)]
             except Exception:
                 pass
+        if name in ('sorted', 'list', 'reversed') and len(args) == 1 and args[0].k in ('tuple', 'list') \
+                and not args[0].a[0]:
+            st.nlist += 1
+            return [(V('list', (), st.nlist), st)]
         if name == 'tuple' and args and args[0].k in ('tuple', 'list'):
             return [(tup(args[0].a[0]), st)]
         if name == 'type' and len(args) == 1:
@@ -214,8 +220,22 @@ class CallMixin:
                     return [(C(getattr(recv.val, name)(*[a.val for a in args])), st)]
                 except Exception:
                     pass
-        if recv.k == 'list' and name == 'append':
+        if recv.k == 'list' and name == 'append' and len(args) == 1:
+            st.rebind(recv, V('list', recv.a[0] + (args[0],), recv.a[1]))
             return [(NONE, st)]
+        if recv.k == 'mdict' and name in ('items', 'keys', 'values') and not args:
+            st.nlist += 1
+            if name == 'items':
+                items = tuple(tup([k, v]) for k, v in recv.a[0])
+            elif name == 'keys':
+                items = tuple(k for k, v in recv.a[0])
+            else:
+                items = tuple(v for k, v in recv.a[0])
+            return [(V('list', items, st.nlist), st)]
+        if recv.k == 'mdict' and name == 'get' and args:
+            for k, v in reversed(recv.a[0]):
+                if k == args[0]:
+                    return [(v, st)]
         if recv.is_const and isinstance(recv.val, dict) and name in ('items', 'keys', 'values') and not args:
             try:
                 return [(C(list(getattr(recv.val, name)())), st)]
@@ -339,8 +359,13 @@ class CallMixin:
 
     def inline(self, f, recv, args, kwargs, node, st, starkw):
         env = self.bind_args(f, recv, args, kwargs, st, starkw)
+        if f.parent is st.fn:
+            # local closure: free variables read the caller's bindings
+            cenv = dict(st.env)
+            cenv.update(env)
+            env = cenv
         saved_env, saved_fn = st.env, st.fn
-        st.push_frame(f, env)
+        st.push_frame(f, env, (getattr(node, 'lineno', 0), getattr(node, 'col_offset', 0)))
         out = []
         for outcome, s in self.exec_block(f.node.body, st):
             s.pop_frame()
@@ -444,6 +469,10 @@ class CallMixin:
         f = st.facts.get(('truthy', v))
         if f is not None:
             return f
+        if v.k == 'term' and v.a[0] == 'len' and len(v.a[1]) == 1:
+            fx = st.facts.get(('truthy', v.a[1][0]))
+            if fx is not None:
+                return fx      # len(x) is truthy exactly when x is non-empty
         lc = self._len_cmp(v)
         if lc is not None:
             fx = st.facts.get(('truthy', lc[0]))
@@ -487,6 +516,8 @@ class CallMixin:
 
     def assume(self, v, truth, st):
         st.facts[('truthy', v)] = truth
+        if v.k == 'term' and v.a[0] == 'len' and len(v.a[1]) == 1:
+            st.facts[('truthy', v.a[1][0])] = truth
         lc = self._len_cmp(v)
         if lc is not None:
             x, when_nonempty = lc
